@@ -113,6 +113,11 @@ def step (s : St) (toks : List String) : St × String :=
     match cap.toNat? with
     | some c => if c = 0 || c > 256 then (s, "bad-op") else (s, "ok")
     | none => (s, "bad-op")
+  | ["sockbacklog", kb] =>
+    -- a backlogged client of the real control socket on a private hub: monitor only, no state change
+    match kb.toNat? with
+    | some k => if k = 0 || k > 1024 then (s, "bad-op") else (s, "ok")
+    | none => (s, "bad-op")
   | ["par", nsubs, rounds] =>
     -- real-parallelism probe on a private hub: monitor only, no state change
     match nsubs.toNat?, rounds.toNat? with
